@@ -16,8 +16,10 @@ import (
 	"bufio"
 	"fmt"
 	"go/ast"
+	"go/constant"
 	"go/token"
 	"go/types"
+	"math/big"
 	"os"
 	"path/filepath"
 	"sort"
@@ -82,7 +84,7 @@ func pkgWraps(dir string) []string {
 	// the site is identified by its shape: identifiers are replaced by _, so that renaming a variable or moving the
 	// expression into a helper function does not change the list
 	txt := func(n ast.Node) string {
-		s := normIdents(lp.fset, n, nil)
+		s := wrapShape(lp, n)
 		if len(s) > 90 {
 			s = s[:90] + "..."
 		}
@@ -109,7 +111,7 @@ func pkgWraps(dir string) []string {
 						if isConst(e) {
 							return true
 						}
-						if name, _, ok := sizedInt(lp.info.TypeOf(e)); ok {
+						if name, _, ok := sizedInt(lp.info.TypeOf(e)); ok && !fits(lp, e) {
 							out = append(out, fmt.Sprintf("%s %s: %s", e.Op, name, txt(e)))
 						}
 					}
@@ -138,7 +140,7 @@ func pkgWraps(dir string) []string {
 					if !ok {
 						return true
 					}
-					if sw, ok := intWidth(lp.info.TypeOf(e.Args[0])); ok && sw > w {
+					if sw, ok := intWidth(lp.info.TypeOf(e.Args[0])); ok && sw > w && !fits(lp, e) {
 						out = append(out, fmt.Sprintf("narrow to %s: %s", name, txt(e)))
 					}
 				}
@@ -148,6 +150,205 @@ func pkgWraps(dir string) []string {
 	}
 	sort.Strings(out)
 	return out
+}
+
+// wrapShape prints the arithmetic shape of a site: operators, conversions, len/cap and constants (by value, whether
+// written as a literal or as a named constant) are kept; every other operand (a variable, a field, an element, a
+// function result) is _.  Renaming, taking a field into a local or writing 10_000_000 for 10000000 does not change it.
+func wrapShape(lp *loadedPkg, n ast.Node) string {
+	var f func(e ast.Expr) string
+	f = func(e ast.Expr) string {
+		if tv, ok := lp.info.Types[e]; ok && tv.Value != nil {
+			return tv.Value.ExactString()
+		}
+		switch x := e.(type) {
+		case *ast.ParenExpr:
+			return f(x.X)
+		case *ast.BinaryExpr:
+			return "(" + f(x.X) + " " + x.Op.String() + " " + f(x.Y) + ")"
+		case *ast.UnaryExpr:
+			return x.Op.String() + f(x.X)
+		case *ast.CallExpr:
+			if tv, ok := lp.info.Types[x.Fun]; ok && tv.IsType() && len(x.Args) == 1 {
+				name := nodeStr(lp.fset, x.Fun)
+				if b, ok := tv.Type.Underlying().(*types.Basic); ok {
+					name = b.Name()
+				}
+				return name + "(" + f(x.Args[0]) + ")"
+			}
+			if id, ok := x.Fun.(*ast.Ident); ok && (id.Name == "len" || id.Name == "cap") {
+				return id.Name + "(_)"
+			}
+			return "_"
+		}
+		return "_"
+	}
+	switch x := n.(type) {
+	case ast.Expr:
+		return f(x)
+	case *ast.AssignStmt:
+		return "_ " + x.Tok.String() + " " + f(x.Rhs[0])
+	case *ast.IncDecStmt:
+		return "_" + x.Tok.String()
+	}
+	return "?"
+}
+
+// valueRange: bounds of an integer expression that follow from constants, from the width of the types its operands
+// are converted from, and from masks, shifts and remainders.  A site whose result provably fits its type cannot wrap
+// (uint16(b[0])<<8 | uint16(b[1]), byte(x & 0xff)) and is not a site.
+func valueRange(lp *loadedPkg, e ast.Expr) (lo, hi *big.Int, ok bool) {
+	if tv, found := lp.info.Types[e]; found && tv.Value != nil {
+		if v, isInt := constant.Val(constant.ToInt(tv.Value)).(*big.Int); isInt {
+			return v, v, true
+		} else if i64, exact := constant.Int64Val(constant.ToInt(tv.Value)); exact {
+			return big.NewInt(i64), big.NewInt(i64), true
+		}
+	}
+	typeRange := func(t types.Type) (*big.Int, *big.Int, bool) {
+		if t == nil {
+			return nil, nil, false
+		}
+		b, isB := t.Underlying().(*types.Basic)
+		if !isB || b.Info()&types.IsInteger == 0 {
+			return nil, nil, false
+		}
+		w, known := intWidth(t)
+		if !known {
+			return nil, nil, false
+		}
+		one := big.NewInt(1)
+		if b.Info()&types.IsUnsigned != 0 {
+			return big.NewInt(0), new(big.Int).Sub(new(big.Int).Lsh(one, uint(w)), one), true
+		}
+		h := new(big.Int).Lsh(one, uint(w-1))
+		return new(big.Int).Neg(h), new(big.Int).Sub(h, one), true
+	}
+	clampTo := func(lo, hi *big.Int, t types.Type) (*big.Int, *big.Int, bool) {
+		tl, th, known := typeRange(t)
+		if !known {
+			return lo, hi, true
+		}
+		if lo.Cmp(tl) >= 0 && hi.Cmp(th) <= 0 {
+			return lo, hi, true
+		}
+		return tl, th, true // may wrap: anything of the type
+	}
+	switch x := e.(type) {
+	case *ast.ParenExpr:
+		return valueRange(lp, x.X)
+	case *ast.CallExpr:
+		if tv, found := lp.info.Types[x.Fun]; found && tv.IsType() && len(x.Args) == 1 {
+			if l, h, known := valueRange(lp, x.Args[0]); known {
+				return clampTo(l, h, tv.Type)
+			}
+			return typeRange(tv.Type)
+		}
+	case *ast.BinaryExpr:
+		l1, h1, ok1 := valueRange(lp, x.X)
+		l2, h2, ok2 := valueRange(lp, x.Y)
+		t := lp.info.TypeOf(e)
+		switch x.Op {
+		case token.AND:
+			// x & c with a non-negative c: at most c
+			if ok2 && l2.Sign() >= 0 {
+				return big.NewInt(0), h2, true
+			}
+			if ok1 && l1.Sign() >= 0 {
+				return big.NewInt(0), h1, true
+			}
+		case token.REM:
+			if ok2 && l2.Sign() > 0 && ok1 && l1.Sign() >= 0 {
+				return big.NewInt(0), new(big.Int).Sub(h2, big.NewInt(1)), true
+			}
+		case token.SHR:
+			if ok1 && ok2 && l1.Sign() >= 0 && l2.Sign() >= 0 && l2.IsInt64() && l2.Int64() < 256 {
+				return big.NewInt(0), new(big.Int).Rsh(h1, uint(l2.Int64())), true
+			}
+		case token.QUO:
+			if ok1 && ok2 && l1.Sign() >= 0 && l2.Sign() > 0 {
+				return big.NewInt(0), new(big.Int).Quo(h1, l2), true
+			}
+		case token.OR, token.XOR:
+			if ok1 && ok2 && l1.Sign() >= 0 && l2.Sign() >= 0 {
+				m := h1
+				if h2.Cmp(m) > 0 {
+					m = h2
+				}
+				// below the next power of two
+				return big.NewInt(0), new(big.Int).Sub(new(big.Int).Lsh(big.NewInt(1), uint(m.BitLen())), big.NewInt(1)), true
+			}
+		case token.ADD:
+			if ok1 && ok2 {
+				return clampTo(new(big.Int).Add(l1, l2), new(big.Int).Add(h1, h2), t)
+			}
+		case token.SUB:
+			if ok1 && ok2 {
+				return clampTo(new(big.Int).Sub(l1, h2), new(big.Int).Sub(h1, l2), t)
+			}
+		case token.MUL:
+			if ok1 && ok2 && l1.Sign() >= 0 && l2.Sign() >= 0 {
+				return clampTo(new(big.Int).Mul(l1, l2), new(big.Int).Mul(h1, h2), t)
+			}
+		case token.SHL:
+			if ok1 && ok2 && l1.Sign() >= 0 && l2.Sign() >= 0 && h2.IsInt64() && h2.Int64() < 256 {
+				return clampTo(new(big.Int).Lsh(l1, uint(l2.Int64())), new(big.Int).Lsh(h1, uint(h2.Int64())), t)
+			}
+		}
+	}
+	return typeRange(lp.info.TypeOf(e))
+}
+
+// fits: the exact (unwrapped) value of the operation lies inside its type
+func fits(lp *loadedPkg, e ast.Expr) bool {
+	t := lp.info.TypeOf(e)
+	w, known := intWidth(t)
+	if !known {
+		return false
+	}
+	b := t.Underlying().(*types.Basic)
+	one := big.NewInt(1)
+	tl, th := big.NewInt(0), new(big.Int).Sub(new(big.Int).Lsh(one, uint(w)), one)
+	if b.Info()&types.IsUnsigned == 0 {
+		h := new(big.Int).Lsh(one, uint(w-1))
+		tl, th = new(big.Int).Neg(h), new(big.Int).Sub(h, one)
+	}
+	var lo, hi *big.Int
+	switch x := e.(type) {
+	case *ast.BinaryExpr:
+		l1, h1, ok1 := valueRange(lp, x.X)
+		l2, h2, ok2 := valueRange(lp, x.Y)
+		if !ok1 || !ok2 {
+			return false
+		}
+		switch x.Op {
+		case token.ADD:
+			lo, hi = new(big.Int).Add(l1, l2), new(big.Int).Add(h1, h2)
+		case token.SUB:
+			lo, hi = new(big.Int).Sub(l1, h2), new(big.Int).Sub(h1, l2)
+		case token.MUL:
+			if l1.Sign() < 0 || l2.Sign() < 0 {
+				return false
+			}
+			lo, hi = new(big.Int).Mul(l1, l2), new(big.Int).Mul(h1, h2)
+		case token.SHL:
+			if l1.Sign() < 0 || l2.Sign() < 0 || !h2.IsInt64() || h2.Int64() >= 256 {
+				return false
+			}
+			lo, hi = new(big.Int).Lsh(l1, uint(l2.Int64())), new(big.Int).Lsh(h1, uint(h2.Int64()))
+		default:
+			return false
+		}
+	case *ast.CallExpr:
+		l, h, known := valueRange(lp, x.Args[0])
+		if !known {
+			return false
+		}
+		lo, hi = l, h
+	default:
+		return false
+	}
+	return lo.Cmp(tl) >= 0 && hi.Cmp(th) <= 0
 }
 
 func genWraps() {
